@@ -131,6 +131,7 @@ Proof.
     try (inversion Hc; subst; reflexivity);
     try (destruct k; inversion Hc; subst; reflexivity).
   - inversion Hc; subst. cbn [wf_local] in Hwf. apply andb_true_iff in Hwf as [_ H]. exact H.
+  - inversion Hc; subst. cbn [wf_local] in Hwf. apply andb_true_iff in Hwf as [_ H]. exact H.
   - inversion Hc; subst. cbn [wf_local] in Hwf. destruct (find_data W c); [|discriminate Hwf].
     apply andb_true_iff in Hwf as [_ H]. exact H.
 Qed.
@@ -252,6 +253,12 @@ Proof.
     apply andb_true_iff in Hwf as [Hwf _]. apply andb_true_iff in Hwf as [Hwf Hdt].
     apply andb_true_iff in Hwf as [_ Hq]. apply negb_true_iff in Hdt.
     destruct q as [|x q]; [discriminate Hq|]. cbn [snd app heads] in Hn. destruct Hn as [<-|[]].
+    eapply Self; [reflexivity|]. rewrite import_pair_from by exact Hdt. reflexivity.
+  - (* unnamed flag value *) destruct c as [md q]. cbn [wf_local snd fst] in Hwf.
+    apply andb_true_iff in Hwf as [Hwf _]. apply andb_true_iff in Hwf as [Hwf Hdt].
+    apply andb_true_iff in Hwf as [_ Hq]. apply negb_true_iff in Hdt.
+    destruct q as [|x q]; [discriminate Hq|].
+    rewrite heads_ECall in Hn. cbn [snd flat_map heads heads_kws app] in Hn. destruct Hn as [<-|[]].
     eapply Self; [reflexivity|]. rewrite import_pair_from by exact Hdt. reflexivity.
 Qed.
 
